@@ -1,6 +1,7 @@
 pub mod c02;
 pub mod c06;
 pub mod c15;
+pub mod c16;
 pub mod c17;
 
 use crate::evidence::{Report, Tier};
@@ -13,6 +14,7 @@ pub fn lookup(id: &str) -> Option<(CheckFn, ReplayFn)> {
         "C02" => Some((c02::run, c02::replay)),
         "C06" => Some((c06::run, c06::replay)),
         "C15" => Some((c15::run, c15::replay)),
+        "C16" => Some((c16::run, c16::replay)),
         "C17" => Some((c17::run, c17::replay)),
         _ => None,
     }
